@@ -263,9 +263,12 @@ fn cells(tier: Tier) -> Vec<Cell> {
 
 pub fn run(tier: Tier) -> Report {
   let mut rep = Report::new("C15", tier, "model_checking");
-  rep.assume("only LINGER=-1 and LINGER=0 are decided here (they do not read the real clock); finite LINGER values use std::time::Instant deadlines and are outside the deterministic world");
+  rep.assume("LINGER=-1 and LINGER=0 are decided in deterministic worlds (they do not read the real clock); finite LINGER values use std::time::Instant deadlines and are exercised by the real-clock matrix (E4, one execution per cell, margins of seconds)");
   rep.assume("the receiver lives in a separate context (except over inproc) so that terminating the sender's context does not stop it; 'late reader' starts receiving 2 s virtual after close/term was issued");
-  let list = cells(tier);
+  let mut list = cells(tier);
+  if std::env::var("MC_C15_ONLY_E4").is_ok() {
+    list.clear(); // debugging aid: real-clock cells only
+  }
   let mut sub = Sub::new("linger-infinite-and-zero", "E3");
   sub.rule = "case = one world per cell: connect, send `queued` messages back-to-back (SNDTIMEO=0, so only accepted ones count), then close()/term()/drop+term while the peer reads eagerly or late; non-trivial = at least one message was queued at close; oracle: LINGER=-1 -> every accepted message is received and close returns; LINGER=0 -> close returns within 1.5 s virtual; always: received is an in-order prefix of accepted, every received message intact".into();
   sub.bounds = json!({"cells": list.len(), "queued": [0, 1, 2, 8, 40, 200], "sizes": [8, 300, 71680], "link_buffer": [64, 65536]});
@@ -293,10 +296,14 @@ pub fn run(tier: Tier) -> Report {
     case
   });
   rep.add(sub);
+  rep.add(crate::c15_real::finite_sub(tier));
   rep
 }
 
 pub fn replay(sub: &str, w: &Value) -> Result<String, String> {
+  if w["explorer"] == "e4" {
+    return crate::c15_real::replay(w);
+  }
   Err(format!("replay of {}: re-run ./check C15 (witness {})", sub, w))
 }
 
